@@ -12,6 +12,7 @@ PROP = {
              "lifetime (29-32 s, 31 s + cool-down, 200 s). Non-trivial: a sequence uses up its attempts (in-condition response answered without a retry right after a "
              "retry verdict) while another sequence's last verdict is `retry` (mid-way). distinct = canonical JSON of configuration + history"),
     "assumptions": [
+        "unit TestPolicyRetryLongLivedPlugin runs the policy histories against one retry plugin instance for the whole unit (the gateway has one for its life), each case with sequence ids of its own; a failure there depends on the earlier cases and is reproduced by the same seed, not from the single failing case",
         "unit TestPolicyRetryThroughDispatcher routes the policy histories through runner.DispatchOnResponse (provider responses) and runner.DispatchOnRequest (responses a fixed_response remedy gives by itself, which run through the response-side remedies); one endpoint per status, the retry remedy is global",
         "attempts >= 1 (flows mode rejects smaller values at load time; policy mode does not validate and asks for one retry with attempts=0 - outside the generated domain)",
         "the first response of a logical call always carries the sequence id as its transaction id (HAProxy assigns the unique id to both when the client sends no x-lunar-sequence-id)",
@@ -23,6 +24,7 @@ PROP = {
         {"pkg": "c17", "test": "TestFlowsRetryBound", "quick": 1500, "thorough": 20000, "shards": 16},
         {"pkg": "c17", "test": "TestPolicyRetryBound", "quick": 6000, "thorough": 100000, "shards": 16},
 {"pkg": "c17", "test": "TestPolicyRetryThroughDispatcher", "quick": 6000, "thorough": 100000, "shards": 16},
+        {"pkg": "c17", "test": "TestPolicyRetryLongLivedPlugin", "quick": 12000, "thorough": 100000, "shards": 4},
         {"pkg": "c17", "test": "TestFixedHistories", "kind": "plain"},
         {"pkg": "c17", "test": "TestWitnessFlowsCounterSurvivesOutOfConditionResponse", "kind": "plain"},
         {"pkg": "c17", "test": "TestWitnessPolicyRetriedTransactionWithSequenceIDAsID", "kind": "plain"},
